@@ -1174,6 +1174,7 @@ def replay(ctx, data):
         ops = [{k: e[k] for k in ('op', 'tiles', 'rule', 'd', 'tile') if k in e} for e in case['events']]
     else:
         print('nothing to replay')
+        shutil.rmtree(ctx.workdir, ignore_errors=True)
         return 0
     backend, path, ntiles = case.get('backend', 'file'), case.get('path', 'single'), case.get('ntiles', 2)
     prec = case.get('precedence', 'task')
@@ -1203,3 +1204,4 @@ def replay(ctx, data):
         return 1 if rejected or propfail else 0
     finally:
         uninstall()
+        shutil.rmtree(ctx.workdir, ignore_errors=True)
